@@ -267,6 +267,7 @@ func (in *Interp) callSSA(caller *frame, site ssa.Instruction, fn *ssa.Function,
 	fr := &frame{in: in, fn: fn, caller: caller, freeVars: env, meta: meta}
 	fr.env = make([]Value, meta.nvals)
 	fr.block = fn.Blocks[0]
+	meta.cov[0] = 1
 	for i, p := range fn.Params {
 		fr.env[fr.meta.idx[p]] = args[i]
 	}
@@ -408,6 +409,7 @@ func (fr *frame) jump(to *ssa.BasicBlock) cont {
 		delete(fr.backEdges, to)
 	}
 	fr.prev, fr.block = fr.block, to
+	fr.meta.cov[to.Index] = 1
 	return kJump
 }
 
